@@ -358,14 +358,10 @@ def oracle(case, out):
     if oper in ("finally_action", "do_finally", "do_on_dispose"):
         name = "dispose" if oper == "do_on_dispose" else "finally"
         a = _acts(log, name)
-        ok_runs = [x for x in a if x[1][-1] is False]
-        if len(ok_runs) > 1:
-            return f"{name} action completed {len(ok_runs)} times"
-        if len(a) > (2 if oper == "do_finally" else 1):
+        if len(a) > 1:
             return f"{name} action invoked {len(a)} times"
-        if not act_raised:
-            if len(a) > 1:
-                return f"{name} action ran {len(a)} times"
+        # exactly once iff terminated or disposed: for finally_action / do_finally also when the action itself raises
+        if not act_raised or oper != "do_on_dispose":
             if out["subscribed"] or oper == "finally_action":
                 if over and len(a) != 1:
                     return f"subscription over at {t_over} but {name} action ran {len(a)} times"
@@ -616,9 +612,11 @@ ASSUMPTIONS = [
     "resource.dispose() and the source subscription's dispose() do not raise",
     "same-instant order on the TestScheduler is (due time, enqueue order): hot messages, then subscribe/dispose actions in scheduling order, "
     "then items enqueued at subscription time (cold messages, throw)",
-    "exactly-once for using / do_finally is claimed when subscribe() itself did not raise, and for do_finally when the finally action does "
-    "not raise (witness theorems C40.using_leaks_when_subscribe_raises, C40.do_finally_lost_when_subscribe_raises, "
-    "C40.do_finally_twice_when_action_raises show the hypotheses are needed; same behaviour reproduced on the real code by corpus cases)",
+    "exactly-once for using / do_finally / do_on_dispose is claimed when subscribe() itself did not raise (witness theorems "
+    "C40.using_leaks_when_subscribe_raises, C40.do_finally_lost_when_subscribe_raises show the hypothesis is needed; same behaviour "
+    "reproduced on the real code by corpus cases); do_on_dispose additionally when its action does not raise",
+    "model and theorems describe do_finally AFTER fixes/C40_do_finally_flag_before_action.patch (flag set before the action); on a tree "
+    "without it the check reports VIOLATION with the double-invocation input (witness C40.do_finally_twice_when_action_raises, AsIs handler)",
 ]
 LEVEL_TEXT = ("Lean theorems over an executable model of using_/finally_action_/do_finally/do_action_ and the do_* variants including the "
               "plumbing (two AutoDetachObservers with their SingleAssignmentDisposables, Disposable idempotence, CompositeDisposable order, "
@@ -626,15 +624,15 @@ LEVEL_TEXT = ("Lean theorems over an executable model of using_/finally_action_/
               "source notifications, dispose anywhere and repeatedly) and any raising pattern of the subscriber's callbacks: the resource is "
               "disposed at most once, exactly once iff a terminal was delivered or dispose was called (at the first such event) and never "
               "without a resource; finally_action runs its action exactly once under the same condition (even if it raises) and after every "
-              "downstream callback; do_finally likewise when its action does not raise; every do_* operator whose callbacks do not raise is "
+              "downstream callback; do_finally (with the fix: flag set before the action) likewise, also when its action raises; every do_* operator whose callbacks do not raise is "
               "transparent (simulation against the operator-free pipeline: same deliveries, same source disposal, same escaping exceptions) "
               "and its callbacks see every corresponding notification exactly once, in order, adjacent to the delivery (cbShape); "
               "do_on_dispose's action runs exactly once under the same condition as do_finally. "
               "Proved by invariants/simulation, no bound. The model is tied to the code by differential comparison of full timed effect logs.")
-LEVEL_NOTE = ("Hypotheses that cannot be dropped (decided witnesses, reproduced on the real code): using/do_finally lose the resource/action when "
+LEVEL_NOTE = ("Hypothesis that cannot be dropped (decided witnesses, reproduced on the real code): using/do_finally lose the resource/action when "
               "source.subscribe() itself raises (source terminates inside subscribe and then raises, or the subscriber's on_error raises on a "
-              "failure inside subscribe); do_finally invokes a raising finally action a second time because was_invoked is set after the call. "
+              "failure inside subscribe). Defect repaired by fixes/C40_do_finally_flag_before_action.patch: the pinned do_finally set was_invoked "
+              "after the call, so a raising finally action was invoked a second time (decided witness on the AsIs handler). "
               "do_after_next is transparent only if the subscriber's on_next does not raise (its try covers observer.on_next). "
-              "Not proved in Lean: a general bound (<= 2) on do_finally's invocations when the action raises (only the decided witness and the "
-              "oracle), and the link between the operator-free reference pipeline (do_action() without callbacks, two AutoDetachObservers) and "
+              "Not proved in Lean: the link between the operator-free reference pipeline (do_action() without callbacks, two AutoDetachObservers) and "
               "C01's single-observer model. Trusted: harness, merged same-instant order rule.")
